@@ -4,6 +4,7 @@ import (
 	"fmt"
 	"sync"
 	"sync/atomic"
+	"time"
 
 	"github.com/jrhy/mast"
 	"verifharness/explore"
@@ -272,16 +273,19 @@ func C02(run *report.Run) {
 			{world.UintCfg(2, urange(1, 5), 1, B, "big"), []string{"clone", "root+load", "cursor"}, 2, true, 0},
 			{world.UintCfg(2, urange(1, 4), 1, M, "big"), []string{"root+coldload-twice"}, 2, true, 0},
 			{world.UintCfg(2, urange(1, 4), 1, B, "big"), []string{"root+coldload-twice"}, 2, true, 0},
-			{world.UintCfg(2, urange(1, 4), 2, M, "none"), []string{"clone", "root+loadnc"}, 2, true, 0},
+			{world.UintCfg(2, urange(1, 4), 2, M, "none"), []string{"clone"}, 2, true, 0},
+			{world.UintCfg(2, ulist(1, 2, 4), 2, M, "none"), []string{"root+loadnc"}, 2, true, 0},
 			{world.UintCfg(2, urange(1, 4), 1, B, "tiny1"), []string{"clone", "root+load"}, 2, true, 0},
 			{world.LKeyCfg(2, []uint8{0, 2, 0, 1, 0}, 1, B, "big"), []string{"clone", "root+load"}, 2, true, 0},
 			{deep(B, "big"), []string{"root+load", "clone"}, 2, true, 1},
-			{world.IntCfg(2, []int{1, 2, 3, 4}, []interface{}{[]int{1}, []int{2, 3}}, []int{}, M, "big"), []string{"clone", "root+load"}, 2, true, 0},
+			{world.IntCfg(2, []int{1, 2, 3, 4}, []interface{}{[]int{1}, []int{2, 3}}, []int{}, M, "big"), []string{"root+load"}, 2, true, 0},
+			{world.IntCfg(2, []int{1, 2, 4}, []interface{}{[]int{1}, []int{2, 3}}, []int{}, M, "big"), []string{"clone"}, 2, true, 0},
 			// captures taken after a failed and retried MakeRoot; failing MakeRoot calls also in the continuations
 			{world.WithFlushFaults(world.UintCfg(2, urange(1, 5), 1, B, "big")), c02FailedFlushCaptures, 2, true, 0},
 			// base sets merged on the exact key: the same tree reached with spare capacity in its node slices is a base of its own
 			{world.ExactKey(world.UintCfg(2, urange(1, 4), 1, B, "big")), []string{"clone", "root+load", "cursor"}, 2, true, 0},
-			{world.ExactKey(world.IntCfg(4, []int{1, 4, 5, 8, 9, 12}, []interface{}{"a"}, "", B, "big")), []string{"clone", "root+load"}, 2, true, 0},
+			{world.ExactKey(world.IntCfg(4, []int{1, 4, 5, 8, 9, 12}, []interface{}{"a"}, "", B, "big")), []string{"root+load"}, 2, true, 0},
+			{world.ExactKey(world.IntCfg(4, []int{1, 4, 5, 8, 12}, []interface{}{"a"}, "", B, "big")), []string{"clone"}, 2, true, 0},
 		}
 	} else {
 		all := []string{"clone", "root+load", "root+loadnc", "cursor", "clone-of-clone", "root+load-twice", "root+coldload-twice"}
@@ -307,6 +311,7 @@ func C02(run *report.Run) {
 		// bases: the single-slot closure is explored WITHOUT the cache-read ops exploding it:
 		// the base alphabet is ins/del/persist/reload; cached reads happen in the continuation's observers
 		baseCfg := *pl.cfg
+		planStart := time.Now()
 		var bases [][]world.Op
 		if pl.versions == 1 {
 			bases = versionHists(&baseCfg)
@@ -345,7 +350,7 @@ func C02(run *report.Run) {
 					History: pl.cfg.DescribeHist(hist), Replay: map[string]interface{}{"config": pl.cfg.Name, "ops": hist}, Count: f.Count})
 			}
 		})
-		run.Parts = append(run.Parts, map[string]interface{}{"config": pl.cfg.Name, "bases": len(bases), "captures": pl.captures, "continuation_len": pl.L, "all_values": pl.allVals, "bases_are_persisted_versions": pl.versions == 1})
+		run.Parts = append(run.Parts, map[string]interface{}{"config": pl.cfg.Name, "bases": len(bases), "captures": pl.captures, "continuation_len": pl.L, "all_values": pl.allVals, "bases_are_persisted_versions": pl.versions == 1, "wall_s": time.Since(planStart).Seconds()})
 	}
 	// a free two-slot search from the empty world, as a net for combinations the fan-out shape does not anticipate
 	freeDepth := 5
